@@ -174,3 +174,102 @@ Proof.
   split; [apply tr_shift_rel|]. split; [vm_compute; reflexivity|]. split; [vm_compute; reflexivity|].
   split; [vm_compute; reflexivity|]. split; [vm_compute; reflexivity|]. split; vm_compute; reflexivity.
 Qed.
+
+(* ------------------------------------------------------------------ *)
+(* Multiplicative factors (multiplicative/multiplicative_factor.py;    *)
+(* theories/MulFactor.v, theories/MulFactorProofs.v)                   *)
+(* ------------------------------------------------------------------ *)
+From ICG Require Import MulFactor MulFactorProofs.
+
+(* each of the four functions is mf_factor n num den.  It returns a number iff no assert fires (and n > 0: np.max of an
+   empty array raises); the number bounds every ratio num S / den S over the non-empty coalitions and is attained. *)
+Theorem C07_mulfactor_spec :
+  forall n num den,
+    ((exists a, mf_factor n num den = Some a) <-> ((0 < n)%nat /\ mf_guards n num den))
+    /\ (forall a, mf_factor n num den = Some a -> mf_is_max n num den a).
+Proof. exact mf_factor_spec. Qed.
+Print Assumptions C07_mulfactor_spec.
+
+(* a table that is sound for v with positive lower bounds: no assert fires, 1 <= v/lower factor <= upper/lower factor *)
+Theorem C07_mulfactor_sound_table :
+  forall n v t, (0 < n)%nat -> mf_sound n v t ->
+    exists a b, mf_to_lower_bound n v t = Some a /\ mf_lower_upper_bound n t = Some b /\ 1 <= a /\ a <= b.
+Proof. exact mf_sound_factors. Qed.
+Print Assumptions C07_mulfactor_sound_table.
+
+(* ... in particular the bounds computed by either superadditive computer (C01), when the lower bounds are positive *)
+Theorem C07_mulfactor_sa_sound :
+  forall (c : computer) n K v t t',
+    (c = CRef \/ c = CCached) -> SA n v -> MinK n K -> agrees n t K v -> compute c n t = Some t' ->
+    (0 < n)%nat -> (forall s, bounded n s -> s <> 0%N -> 0 < L t' s) ->
+    exists a b, mf_to_lower_bound n v t' = Some a /\ mf_lower_upper_bound n t' = Some b /\ 1 <= a /\ a <= b.
+Proof. exact mf_sa_factors. Qed.
+Print Assumptions C07_mulfactor_sa_sound.
+
+(* tighter intervals give smaller factors *)
+Theorem C07_mulfactor_monotone :
+  forall n v t1 t2,
+    mf_inside n t2 t1 ->
+    (forall b1 b2, mf_lower_upper_bound n t1 = Some b1 -> mf_lower_upper_bound n t2 = Some b2 -> b2 <= b1)
+    /\ (forall a1 a2, mf_to_lower_bound n v t1 = Some a1 -> mf_to_lower_bound n v t2 = Some a2 -> a2 <= a1).
+Proof.
+  exact (fun n v t1 t2 I => conj (fun b1 b2 => mf_lower_upper_monotone n t1 t2 b1 b2 I)
+                                 (fun a1 a2 => mf_to_lower_monotone n v t1 t2 a1 a2 I)).
+Qed.
+Print Assumptions C07_mulfactor_monotone.
+
+(* along any growth of knowledge K <= K' (C07_sa_monotone_in_knowledge + C01): all four calls are defined and ordered *)
+Theorem C07_mulfactor_sa_along_reveals :
+  forall (c : computer) n v K K' t t' r r',
+    (c = CRef \/ c = CCached) -> SA n v -> MinK n K -> (forall s, K s = true -> K' s = true) ->
+    agrees n t K v -> agrees n t' K' v -> compute c n t = Some r -> compute c n t' = Some r' ->
+    (0 < n)%nat -> (forall s, bounded n s -> s <> 0%N -> 0 < L r s) ->
+    exists a1 b1 a2 b2,
+      mf_to_lower_bound n v r = Some a1 /\ mf_lower_upper_bound n r = Some b1
+      /\ mf_to_lower_bound n v r' = Some a2 /\ mf_lower_upper_bound n r' = Some b2
+      /\ 1 <= a2 /\ a2 <= a1 /\ a2 <= b2 /\ b2 <= b1 /\ a1 <= b1.
+Proof. exact mf_sa_along_reveals. Qed.
+Print Assumptions C07_mulfactor_sa_along_reveals.
+
+(* multiplying the game, the approximation and both bound columns by c > 0 changes none of the four results
+   (equal as canonical rationals, and equally None) *)
+Theorem C07_mulfactor_scale_invariant :
+  forall n c v v' a a' t t',
+    0 < c -> mf_scaled c n v v' -> mf_scaled c n a a' ->
+    mf_scaled c n (mf_lo t) (mf_lo t') -> mf_scaled c n (mf_hi t) (mf_hi t') ->
+    mf_to_approximation n v' a' = mf_to_approximation n v a
+    /\ mf_upper_to_approximation n a' t' = mf_upper_to_approximation n a t
+    /\ mf_to_lower_bound n v' t' = mf_to_lower_bound n v t
+    /\ mf_lower_upper_bound n t' = mf_lower_upper_bound n t.
+Proof. exact mf_scale_invariant. Qed.
+Print Assumptions C07_mulfactor_scale_invariant.
+
+(* a positive superadditive 3-player game, minimal knowledge, then {0,2} revealed: the factors are 5/3 and 7/2, then 5/3 and 8/3 *)
+Definition ex_mf_v : N -> Q := game_of [0; 1; 2; 5; 1; 3; 4; 9].
+Definition ex_mf_K : N -> bool := known_in [0; 1; 2; 4; 7]%N.
+Definition ex_mf_K' : N -> bool := known_in [0; 1; 2; 4; 7; 5]%N.
+Example C07_mulfactor_example :
+  SA 3 ex_mf_v /\ MinK 3 ex_mf_K /\ (forall s, ex_mf_K s = true -> ex_mf_K' s = true)
+  /\ agrees 3 (table_of 3 ex_mf_K ex_mf_v 77) ex_mf_K ex_mf_v /\ agrees 3 (table_of 3 ex_mf_K' ex_mf_v 5) ex_mf_K' ex_mf_v
+  /\ exists r r', compute CRef 3 (table_of 3 ex_mf_K ex_mf_v 77) = Some r
+                  /\ compute CRef 3 (table_of 3 ex_mf_K' ex_mf_v 5) = Some r'
+                  /\ (forall s, bounded 3 s -> s <> 0%N -> 0 < L r s)
+                  /\ mf_to_lower_bound 3 ex_mf_v r = Some (5#3) /\ mf_lower_upper_bound 3 r = Some (7#2)
+                  /\ mf_to_lower_bound 3 ex_mf_v r' = Some (5#3) /\ mf_lower_upper_bound 3 r' = Some (8#3)
+                  /\ mf_upper_to_approximation 3 ex_mf_v r = Some (7#3)
+                  /\ mf_to_approximation 3 ex_mf_v (mf_lo r) = Some (5#3)
+                  /\ mf_lower_upper_bound 3 (table_of 3 ex_mf_K ex_mf_v 77) = None.
+Proof.
+  split; [apply sa_check_sound; vm_compute; reflexivity|].
+  split; [apply mink_check_sound; vm_compute; reflexivity|].
+  split.
+  { intros s. unfold ex_mf_K, ex_mf_K', known_in. simpl. rewrite !orb_false_r.
+    intro H. repeat (apply orb_true_iff in H; destruct H as [H|H]); rewrite H; repeat (rewrite ?orb_true_r, ?orb_true_l); reflexivity. }
+  split; [apply agrees_check_sound; vm_compute; reflexivity|].
+  split; [apply agrees_check_sound; vm_compute; reflexivity|].
+  eexists. eexists. split; [vm_compute; reflexivity|]. split; [vm_compute; reflexivity|].
+  split.
+  { intros s Hb Hs. apply in_alln in Hb. vm_compute in Hb.
+    repeat (destruct Hb as [Hb|Hb]; [subst s; try congruence; vm_compute; reflexivity|]). contradiction. }
+  repeat split; vm_compute; reflexivity.
+Qed.
